@@ -18,7 +18,7 @@ import (
 
 type Node = map[string]interface{}
 
-const MaxEnum = 64
+const MaxEnum = 128
 
 func bytesOf(b []byte) []interface{} {
 	r := make([]interface{}, len(b))
